@@ -17,7 +17,7 @@ Definition dec_cell (s : sx) : option (Z * cell) :=
   match s with
   | L [A x; c; A sid; A w] =>
       bind (as_str c) (fun cs =>
-      if (0 <=? x) && (0 <=? w) && (w <=? 2) then Some (x, mkc cs sid w) else None)
+      if (0 <=? w) && (w <=? 2) then Some (x, mkc cs sid w) else None)
   | _ => None
   end.
 
